@@ -44,6 +44,16 @@ pub fn gen_url(r: &mut Rng) -> String {
     match r.below(10) {
         0 => {}
         1 => u.push('?'),
+        2 if r.pct(50) => {
+            // a long query: the parameter in question comes after 64-110 other tokens (the property's domain
+            // ends at 127 tokens per URL; everything below that must still be found)
+            u.push('?');
+            let fill = 32 + r.below(22);
+            let filler: Vec<String> = (0..fill).map(|i| format!("k{}=v{}", 10 + i, 10 + i)).collect();
+            u.push_str(&filler.join("&"));
+            u.push('&');
+            u.push_str(&query(r));
+        }
         _ => {
             u.push('?');
             u.push_str(&query(r));
